@@ -63,6 +63,9 @@ def run(prop: str, tier: str, seed: int) -> int:
         # format dialects leave exactly their native types unconverted -- also on the FIRST call of a lazily compiled format mixin
         from harness.checks import sys_props
         sys_props.run_into(rep, "C02", tier, seed)
+    if prop == "C03":
+        from harness.checks import sys_props
+        sys_props.run_into(rep, "C03", tier, seed)
     if prop == "C01":
         # the round trip does not depend on which format used a call dialect first (sys/Mashumaro.tla histories on a format mixin)
         from harness.checks import sys_props
